@@ -2,6 +2,8 @@
 import collections
 import json
 import os
+import re
+import shutil
 import sys
 import time
 
@@ -162,6 +164,56 @@ def nontrivial(h):
     return muts >= 3 and commits >= 1
 
 
+def hist_runner(prop, tier, seed, scratch, spec):
+    """default programme: history suites through harness + Lean driver"""
+    suites = spec["suites"](tier, seed)
+    corpus = []
+    for cp in spec.get("corpus", [prop]):
+        corpus += histcheck.load_corpus(cp)
+    suites = [("corpus", corpus)] + suites
+    hist, sizes = op_histogram(suites)
+    results, stats, by_id = histcheck.run_suites(scratch, suites)
+    fails = vlib.failing(results)
+    reports = histcheck.shrink_and_report(prop, scratch, by_id, fails) if fails else []
+    all_h = [h for _, hs in suites for h in hs]
+    distinct = {}
+    for h in all_h:
+        distinct.setdefault(vlib.hist_hash(h), h)
+    nt = sum(1 for h in distinct.values() if nontrivial(h))
+    samples = []
+    for sname, hs in suites[:4]:
+        if hs:
+            samples.append({"suite": sname, "history": [l[:120] for l in hs[0][:25]]})
+    cov = {
+        "evaluations": len(all_h),
+        "distinct_nontrivial": nt,
+        "rule": "histories generated from VERIF_SEED by tools/jgen.py (random profiles + directed enumerations) plus the corpus; distinct by SHA-1 of the operation lines; non-trivial = at least 3 mutating calls and one commit",
+        "samples": samples,
+        "traces_validated_against_impl": len(results) - len(fails),
+        "suites": {sn: len(hs) for sn, hs in suites},
+        "input_op_histogram": hist,
+        "history_length_quartiles": quartiles(sizes),
+        "impl_outcome_histogram": {k: v for k, v in stats.items() if "/" in k},
+    }
+    return {"violations": [(p_, d, "") for p_, d in reports], "coverage": cov, "explored": len(results), "known": []}
+
+
+def hist_replay(prop, replay, scratch):
+    lines = [l.rstrip("\n") for l in open(replay) if l.strip() and not l.startswith("#")]
+    if not lines:
+        print("replay file names a broken obligation, nothing to execute:")
+        print(open(replay).read())
+        return 1
+    res, _ = vlib.run_hist(scratch, lines, name="replay")
+    bad = vlib.failing(res)
+    for k, v in res.items():
+        print("REPLAY %s %s %s" % (k, v["status"], v["detail"][:600]))
+    if bad:
+        print("VIOLATION property=%s replay=%s" % (prop, replay))
+        return 1
+    return 0
+
+
 def run(prop, tier, seed, replay, t0):
     spec = PROPS[prop]
     b = vlib.build(prop)
@@ -178,7 +230,6 @@ def run(prop, tier, seed, replay, t0):
     for hpos in forb:
         obligations_broken.append("forbidden construct " + hpos)
 
-    violations = []  # (replay path, description, suffix)
     scratch = vlib.Scratch(prop)
     try:
         if not b.harness_ok:
@@ -186,76 +237,36 @@ def run(prop, tier, seed, replay, t0):
             print("VIOLATION property=%s replay=%s no-failing-input-found" % (prop, p))
             vlib.write_evidence(prop, tier, seed, "other", {"explanation": "harness build failed; nothing explored", "evaluations": 0, "distinct_nontrivial": 0}, ASSUME_COMMON, time.time() - t0, 1)
             return 1
-
         if replay:
-            lines = [l.rstrip("\n") for l in open(replay) if l.strip() and not l.startswith("#")]
-            if not lines:
-                print("replay file names a broken obligation, nothing to execute:")
-                print(open(replay).read())
-                return 1
-            res, _ = vlib.run_hist(scratch, lines, name="replay")
-            bad = vlib.failing(res)
-            for k, v in res.items():
-                print("REPLAY %s %s %s" % (k, v["status"], v["detail"][:600]))
-            if bad:
-                print("VIOLATION property=%s replay=%s" % (prop, replay))
-                return 1
-            return 0
+            return spec.get("replay", hist_replay)(prop, replay, scratch)
 
         search_tier = tier if not obligations_broken else "thorough"
-        suites = spec["suites"](search_tier, seed)
-        corpus = []
-        for cp in spec.get("corpus", [prop]):
-            corpus += histcheck.load_corpus(cp)
-        suites = [("corpus", corpus)] + suites
-        hist, sizes = op_histogram(suites)
-        results, stats, by_id = histcheck.run_suites(scratch, suites)
-        fails = vlib.failing(results)
-        reports = []
-        if fails:
-            reports = histcheck.shrink_and_report(prop, scratch, by_id, fails)
-        for path, desc in reports:
-            violations.append((path, desc, ""))
-        if obligations_broken and not fails:
-            p = vlib.write_replay(prop, "obligation", [], {"broken_obligations": obligations_broken, "searched": "%d histories at %s volume, none failed" % (len(results), search_tier)})
+        res = spec.get("runner", hist_runner)(prop, search_tier, seed, scratch, spec)
+        violations = list(res["violations"])
+        for k in res.get("known", []):
+            print("KNOWN-FINDING: property=%s %s" % (prop, k))
+        if obligations_broken and not violations:
+            p = vlib.write_replay(prop, "obligation", [], {"broken_obligations": obligations_broken, "searched": "%d cases at %s volume, none failed" % (res.get("explored", 0), search_tier)})
             violations.append((p, "proof obligation no longer checks: " + "; ".join(obligations_broken)[:400], " no-failing-input-found"))
 
-        # ---- evidence ------------------------------------------------------------------------
-        all_h = [h for _, hs in suites for h in hs]
-        distinct = {}
-        for h in all_h:
-            distinct.setdefault(vlib.hist_hash(h), h)
-        nt = sum(1 for h in distinct.values() if nontrivial(h))
-        samples = []
-        for sname, hs in suites[:4]:
-            if hs:
-                samples.append({"suite": sname, "history": [l[:120] for l in hs[0][:25]]})
-        outcome_stats = {k: v for k, v in stats.items() if "/" in k}
         cov = {
             "obligations": len(thms) + len(obligations_broken),
             "discharged": len([t for t in thms if t["ok"]]),
             "checker_cmd": "cd /verif/lean && lake build Jamm.Props.%s && lake env lean <audit file: #audit_ns %s>" % (prop, prop),
-            "trusted_base": TRUSTED_BASE,
+            "trusted_base": TRUSTED_BASE + spec.get("trusted", []),
             "theorems": [{"name": t["name"], "axioms": t["axioms"]} for t in thms],
             "broken_obligations": obligations_broken,
-            "evaluations": len(all_h),
-            "distinct_nontrivial": nt,
-            "rule": "histories generated from VERIF_SEED by tools/jgen.py (random profiles + directed enumerations) plus the corpus; distinct by SHA-1 of the operation lines; non-trivial = at least 3 mutating calls and one commit",
-            "samples": samples,
-            "traces_validated_against_impl": len(results) - len(fails),
-            "suites": {s: len(hs) for s, hs in suites},
-            "input_op_histogram": hist,
-            "history_length_quartiles": quartiles(sizes),
-            "impl_outcome_histogram": outcome_stats,
-            "explanation": "Lean theorems (listed) are re-checked by lake build and audited for axioms; every history is executed on the real code and each outcome compared by the Lean driver with the specification's",
+            "known_findings_seen": res.get("known", []),
+            "explanation": "Lean theorems (listed) are re-checked by lake build and audited for axioms; the correspondence programme runs the real code built from /repo's working tree against the Lean specification / model on the cases described under rule/samples",
         }
+        cov.update(res["coverage"])
         level = spec["level"] if not obligations_broken else "other"
-        vlib.write_evidence(prop, tier, seed, level, cov, ASSUME_COMMON, time.time() - t0, len(violations))
+        vlib.write_evidence(prop, tier, seed, level, cov, ASSUME_COMMON + spec.get("assumptions", []), time.time() - t0, len(violations))
         for path, desc, suffix in violations:
             log("violation:", desc)
             print("VIOLATION property=%s replay=%s%s" % (prop, path, suffix))
         if not violations:
-            print("OK property=%s tier=%s histories=%d theorems=%d wall=%.1fs" % (prop, tier, len(all_h), len(thms), time.time() - t0))
+            print("OK property=%s tier=%s cases=%d theorems=%d wall=%.1fs" % (prop, tier, res.get("explored", 0), len(thms), time.time() - t0))
         return 1 if violations else 0
     finally:
         scratch.cleanup()
@@ -266,3 +277,313 @@ def quartiles(xs):
         return []
     xs = sorted(xs)
     return [xs[0], xs[len(xs) // 4], xs[len(xs) // 2], xs[3 * len(xs) // 4], xs[-1]]
+
+
+# ---- C12: damage to one header page ----------------------------------------------------------------
+def c12_runner(prop, tier, seed, scratch, spec):
+    import random
+    import imgcheck
+    q = tier == "quick"
+    r = random.Random(seed)
+    pagesize = 1024
+    ncommits = 4 if q else 8
+    base = imgcheck.base_history(seed, ncommits, pagesize)
+    res, _ = vlib.run_hist(scratch, base, name="c12base")
+    violations, known = [], []
+    bad = vlib.failing(res)
+    if bad:
+        p = vlib.write_replay(prop, "base", base, {"detail": list(bad.values())[0]["detail"]})
+        return {"violations": [(p, "base history failed: " + list(bad.values())[0]["detail"][:200], "")], "coverage": {"evaluations": 1, "distinct_nontrivial": 0}, "explored": 1, "known": []}
+    dbpath = scratch.db("db-%d" % scratch.n)
+    sig, meta_end = imgcheck.significant_offsets()
+    items, info = [], {}
+    imgdir = os.path.join(scratch.dbdir, "img")
+    os.makedirs(imgdir, exist_ok=True)
+    # undamaged bases and "newest slot zeroed" variants give D_new / D_prev through the Lean decoder
+    bases = {}
+    for c in range(ncommits + 1):
+        data = bytearray(open("%s.c%d" % (dbpath, c), "rb").read())
+        # keep only the used part (the file is extended in 8 MiB steps): the larger page count named
+        # by the two headers; the Lean checker rejects an image that is too short
+        L = imgcheck.layout_consts()
+        o = L["pgPtr"] + L["mNumPages"]
+        np_ = max(int.from_bytes(data[o:o + 8], "little"), int.from_bytes(data[pagesize + o:pagesize + o + 8], "little"))
+        if 4 <= np_ <= len(data) // pagesize:
+            data = data[:np_ * pagesize]
+        os.remove("%s.c%d" % (dbpath, c))
+        bases[c] = data
+        p0 = os.path.join(imgdir, "base-c%d" % c)
+        open(p0, "wb").write(data)
+        items.append(("base-c%d" % c, p0, pagesize))
+    impl0, model0 = imgcheck.parallel_probe(scratch, items)
+    newest, dnew, dprev = {}, {}, {}
+    items2 = []
+    for c in range(ncommits + 1):
+        m, extra = model0["base-c%d" % c]
+        slot = int(re.search(r"slot=(\d+)", extra).group(1))
+        newest[c] = slot
+        dnew[c] = imgcheck.dump_of(m)[0]
+        d = bytearray(bases[c])
+        d[slot * pagesize:(slot + 1) * pagesize] = bytes(pagesize)
+        p1 = os.path.join(imgdir, "prev-c%d" % c)
+        open(p1, "wb").write(d)
+        items2.append(("prev-c%d" % c, p1, pagesize))
+    _, model1 = imgcheck.parallel_probe(scratch, items2)
+    for c in range(ncommits + 1):
+        dprev[c] = imgcheck.dump_of(model1["prev-c%d" % c][0])[0]
+    # damaged images
+    items = []
+    n_img = 0
+    classes = collections.Counter()
+    for c in range(ncommits + 1):
+        for slot in (0, 1):
+            muts = []
+            for off in range(0, meta_end + 8):
+                vals = [0xFF, 0x01, 0x80] if q else list(range(1, 256))
+                if q and off not in sig:
+                    vals = [0xFF]
+                for x in vals:
+                    muts.append(("b%d-%02x" % (off, x), [(off, None, x)]))
+            for off in (r.sample(range(meta_end + 8, pagesize), 6 if q else 60)):
+                muts.append(("t%d" % off, [(off, None, 0xFF)]))
+            muts.append(("zero", [(o, 0, None) for o in range(pagesize)]))
+            muts.append(("zero-record", [(o, 0, None) for o in range(32, meta_end)]))
+            for k in range(4 if q else 40):
+                n = r.randrange(2, 12)
+                muts.append(("rnd%d" % k, [(r.randrange(0, meta_end + 8), r.randrange(256), None) for _ in range(n)]))
+            for k in range(2 if q else 10):
+                a = r.randrange(0, pagesize - 64)
+                muts.append(("blk%d" % k, [(a + i, r.randrange(256), None) for i in range(r.randrange(8, 64))]))
+            for name, edits in muts:
+                d = bytearray(bases[c])
+                changed = set()
+                for off, setv, xorv in edits:
+                    o = slot * pagesize + off
+                    old = d[o]
+                    d[o] = setv if setv is not None else (old ^ xorv)
+                    if d[o] != old:
+                        changed.add(off)
+                iid = "c%d-s%d-%s" % (c, slot, name)
+                pth = os.path.join(imgdir, iid)
+                open(pth, "wb").write(d)
+                items.append((iid, pth, pagesize))
+                info[iid] = (c, slot, changed)
+                n_img += 1
+    impl, model = imgcheck.parallel_probe(scratch, items)
+    n_ok = 0
+    seen_sig = set()
+    for iid, pth, _ in items:
+        c, slot, changed = info[iid]
+        io = impl.get(iid, "missing")
+        mo = model.get(iid, ("missing", ""))[0]
+        harmless = not (changed & sig)
+        cls = ("newest" if slot == newest[c] else "older") + ("-harmless" if harmless else "-significant")
+        classes[cls] += 1
+        idump, ichk = imgcheck.dump_of(io)
+        # what the property demands
+        if slot != newest[c] or harmless or not changed:
+            want = dnew[c]
+        else:
+            want = None  # newest header damaged in a checked byte: previous commit, unless the damage left the record valid and equal (impossible for a single byte: theorem)
+        problem = None
+        if idump is None:
+            problem = "open did not succeed: %s" % io[:80]
+        elif ichk != "ok":
+            problem = "DB::check fails on the state shown: %s" % ichk
+        elif want is not None and idump != want:
+            problem = "shows a state other than the newest commit although the %s header was damaged%s" % ("older" if slot != newest[c] else "newest", " outside every checked byte" if harmless else "")
+        elif want is None and idump not in (dprev[c], dnew[c]):
+            problem = "shows neither the previous nor the newest commit"
+        elif want is None and idump == dnew[c] and len(changed) == 1 and c > 0:
+            problem = "a header with one damaged checked byte (offset %d) was trusted" % list(changed)[0]
+        if problem is None and io != mo:
+            problem = "model and implementation disagree: model=%s" % mo[:100]
+        if problem is None:
+            n_ok += 1
+            continue
+        s_ = problem[:40]
+        if s_ in seen_sig or len(violations) >= 3:
+            continue
+        seen_sig.add(s_)
+        os.makedirs(os.path.join(vlib.WORK, "replays"), exist_ok=True)
+        keep = os.path.join(vlib.WORK, "replays", "C12-%s.img" % iid)
+        shutil.copy(pth, keep)
+        violations.append((keep, "%s: %s (image of commit %d, slot %d, offsets %s)" % (iid, problem, c, slot, sorted(changed)[:6]), ""))
+    cov = {
+        "evaluations": n_img,
+        "distinct_nontrivial": n_img,
+        "rule": "every image is a distinct single- or multi-byte damage of one header page of the file after commit count 0..%d (all offsets 0..%d with %s, zeroing, random overwrites, sampled tail offsets), opened by the real code (probe process) and by the Lean model; non-trivial = at least one byte differs" % (ncommits, meta_end + 7, "3 values (1 outside checked bytes)" if q else "all 255 values"),
+        "samples": [{"image": i, "commit": info[i][0], "slot": info[i][1], "changed_offsets": sorted(info[i][2])[:8], "impl": impl.get(i, "")[:60]} for i, _, _ in items[:3] + items[-2:]],
+        "traces_validated_against_impl": n_ok,
+        "damage_classes": dict(classes),
+        "replay_format": "a damaged database image: ./check C12 --replay <img> opens it with the real code and the model",
+    }
+    return {"violations": violations, "coverage": cov, "explored": n_img, "known": known}
+
+
+def c12_replay(prop, replay, scratch):
+    import imgcheck
+    impl, model = imgcheck.run_probe(scratch, [("replay", replay, 1024)], "replay")
+    print("REPLAY impl=%s" % impl.get("replay", "")[:300])
+    print("REPLAY model=%s" % model.get("replay", ("", ""))[0][:300])
+    if impl.get("replay") != model.get("replay", ("", ""))[0]:
+        print("VIOLATION property=%s replay=%s" % (prop, replay))
+        return 1
+    return 0
+
+
+PROPS["C12"] = {"runner": c12_runner, "replay": c12_replay, "level": "proof"}
+
+
+# ---- C15: files written by earlier versions -----------------------------------------------------------
+GOLDEN_SIZES = [1024, 4096, 5000, 16384]
+
+
+def c15_runner(prop, tier, seed, scratch, spec):
+    import hashlib
+    import random
+    import imgcheck
+    q = tier == "quick"
+    r = random.Random(seed)
+    gdir = os.path.join(vlib.ROOT, "golden")
+    violations = []
+    n_cases = 0
+    n_ok = 0
+    samples = []
+    # (a) every golden file (current and legacy header) opens with identical logical contents, in the
+    #     real code and in the Lean reader that encodes the pinned layout
+    items, want = [], {}
+    work = os.path.join(scratch.dbdir, "gold")
+    os.makedirs(work, exist_ok=True)
+    for ps in GOLDEN_SIZES:
+        dump = open(os.path.join(gdir, "golden-%d.dump" % ps)).read().strip()
+        for kind in ("", "-legacy"):
+            name = "golden-%d%s" % (ps, kind)
+            dst = os.path.join(work, name + ".db")
+            shutil.copy(os.path.join(gdir, name + ".db"), dst)
+            items.append((name, dst, ps))
+            want[name] = dump
+    impl, model = imgcheck.parallel_probe(scratch, items, jobs=4)
+    for name, dst, ps in items:
+        n_cases += 1
+        io, mo = impl.get(name, "missing"), model.get(name, ("missing", ""))[0]
+        idump, ichk = imgcheck.dump_of(io)
+        problem = None
+        if idump != want[name]:
+            problem = "contents differ from what the pinned release wrote (or open failed): %s" % io[:100]
+        elif ichk != "ok":
+            problem = "DB::check fails on a golden file: %s" % ichk
+        elif mo != io:
+            problem = "the pinned-layout Lean reader disagrees with the implementation: %s" % mo[:100]
+        if problem:
+            keep = os.path.join(vlib.WORK, "replays", "C15-%s.db" % name)
+            os.makedirs(os.path.dirname(keep), exist_ok=True)
+            shutil.copy(os.path.join(gdir, name + ".db"), keep)
+            violations.append((keep, "%s: %s" % (name, problem), ""))
+        else:
+            n_ok += 1
+    samples.append({"golden": items[0][0], "impl": impl.get(items[0][0], "")[:100]})
+    # (b) further commits on top of every golden file refine the specification started from its contents
+    hists = []
+    for ps in GOLDEN_SIZES:
+        ops = [l.rstrip("\n") for l in open(os.path.join(gdir, "golden-%d.ops" % ps)) if l.strip()]
+        for kind in ("", "-legacy"):
+            src_ = os.path.join(gdir, "golden-%d%s.db" % (ps, kind))
+            for v in range(1 if q else 6):
+                g = jgen.HistGen(seed * 31 + ps + v + (7 if kind else 0), {"pagesize": ps, "numpages": 64, "families": ["tiny", "short", "mid"], "txs": 3, "ops": 30, "p_reopen": 0.4, "p_dbcheck": 1.0})
+                g.next_tx, g.next_h = 1000, 1000
+                lines = ["hist gold-cont-%d%s-%d" % (ps, kind, v), "cfg pagesize=%d numpages=64 strict=%d populate=0" % (ps, v % 2), "open"] + ops + ["usefile %s" % src_, "open"]
+                # the shadow must know the golden contents to generate valid operations: replay the creating ops into it
+                sh_ = jgen.Shadow()
+                hmap = {}
+                for o in ops:
+                    f = o[1:].split(" ")
+                    if f[0] in ("mkb", "getb", "gocb"):
+                        parent = sh_ if f[3] == "0" else hmap[f[3]]
+                        name = bytes.fromhex(f[4]) if f[4] != "-" else b""
+                        parent.items.setdefault(name, jgen.Shadow())
+                        hmap[f[2]] = parent.items[name]
+                    elif f[0] == "put":
+                        k = bytes.fromhex(f[3]) if f[3] != "-" else b""
+                        hmap[f[2]].items[k] = b"v"
+                    elif f[0] == "del":
+                        k = bytes.fromhex(f[3]) if f[3] != "-" else b""
+                        hmap[f[2]].items.pop(k, None)
+                g.committed = sh_
+                g.emit("begin 999 r")
+                g.emit("dump 999")
+                g.emit("drop 999")
+                for _ in range(3):
+                    g.write_tx(r.randrange(5, 40))
+                    g.verify()
+                    g.emit("dbcheck")
+                g.emit("reopen")
+                g.verify()
+                g.emit("close")
+                hists.append(lines + g.lines)
+    results, stats, by_id = histcheck.run_suites(scratch, [("golden-continue", hists)])
+    fails = vlib.failing(results)
+    n_cases += len(results)
+    n_ok += len(results) - len(fails)
+    for pth, desc in (histcheck.shrink_and_report(prop, scratch, by_id, fails) if fails else []):
+        violations.append((pth, desc, ""))
+    # (c) opening with a different page size is refused and leaves the file untouched
+    items = []
+    hashes = {}
+    for ps in GOLDEN_SIZES:
+        for kind in ("", "-legacy"):
+            for other in [1024, 2048, 4096, 5000, 8192, 16384, 32768]:
+                if other == ps:
+                    continue
+                name = "mis-%d%s-as-%d" % (ps, kind, other)
+                dst = os.path.join(work, name + ".db")
+                shutil.copy(os.path.join(gdir, "golden-%d%s.db" % (ps, kind)), dst)
+                hashes[name] = hashlib.sha1(open(dst, "rb").read()).hexdigest()
+                items.append((name, dst, other))
+    impl, model = imgcheck.parallel_probe(scratch, items, jobs=4)
+    for name, dst, other in items:
+        n_cases += 1
+        io, mo = impl.get(name, "missing"), model.get(name, ("missing", ""))[0]
+        after = hashlib.sha1(open(dst, "rb").read()).hexdigest()
+        problem = None
+        if not io.startswith("panic:") and not io.startswith("err:"):
+            problem = "a file with another page size was not refused: %s" % io[:80]
+        elif after != hashes[name]:
+            problem = "the refused open modified the file"
+        elif io != mo:
+            problem = "refused differently from the model: impl=%s model=%s" % (io[:40], mo[:40])
+        if problem:
+            keep = os.path.join(vlib.WORK, "replays", "C15-%s.db" % name)
+            shutil.copy(dst, keep)
+            violations.append((keep, "%s: %s" % (name, problem), ""))
+        else:
+            n_ok += 1
+    samples.append({"mismatch": items[0][0], "impl": impl.get(items[0][0], "")})
+    cov = {
+        "evaluations": n_cases,
+        "distinct_nontrivial": n_cases,
+        "rule": "golden files written by the pinned release at page sizes 1024/4096/5000/16384 (nested buckets, multi-page values, empty key, non-empty free list) and their legacy-header rewrites: (a) opened by the real code and by the Lean reader with the pinned layout, contents compared with the dump recorded at creation; (b) continued by random transactions, every outcome/dump/file compared with the specification started from the golden contents; (c) opened with every other page size of a fixed list: must be refused, bytes unchanged",
+        "samples": samples,
+        "traces_validated_against_impl": n_ok,
+        "exhaustive": False,
+    }
+    return {"violations": violations[:4], "coverage": cov, "explored": n_cases, "known": []}
+
+
+def c15_replay(prop, replay, scratch):
+    if replay.endswith(".hist"):
+        return hist_replay(prop, replay, scratch)
+    import imgcheck
+    rc = 0
+    for ps in GOLDEN_SIZES:
+        impl, model = imgcheck.run_probe(scratch, [("replay", replay, ps)], "replay%d" % ps)
+        print("REPLAY pagesize=%d impl=%s" % (ps, impl.get("replay", "")[:200]))
+        print("REPLAY pagesize=%d model=%s" % (ps, model.get("replay", ("", ""))[0][:200]))
+        if impl.get("replay") != model.get("replay", ("", ""))[0]:
+            rc = 1
+    if rc:
+        print("VIOLATION property=%s replay=%s" % (prop, replay))
+    return rc
+
+
+PROPS["C15"] = {"runner": c15_runner, "replay": c15_replay, "level": "proof"}
